@@ -136,7 +136,7 @@ class UnderlierSpot(StateIndependentFeature):
         index = [time_step] if isinstance(time_step, int) else ...
         output = self.derivative.ul().spot[:, index].unsqueeze(-1)  # type: ignore
         if self.log:
-            output.log_()
+            output = output.log()
         return output
 
 
@@ -169,7 +169,7 @@ class Spot(StateIndependentFeature):
         index = [time_step] if isinstance(time_step, int) else ...
         output = self.derivative.spot[:, index].unsqueeze(-1)  # type: ignore
         if self.log:
-            output.log_()
+            output = output.log()
         return output
 
 
